@@ -68,12 +68,12 @@ COMMON_ASSUMPTIONS = [
 
 PROPS = {
     "C01": {
-        "mc": DEC_MODELS, "gen": ["decode", "avps", "payload"],
+        "mc": DEC_MODELS, "gen": ["decode", "avps", "payload", "decode_big"],
         "rule": "TLC-explored boundary grammars of the decoder machine (every run exported and replayed) + seeded "
                 "random / mutated / raw inputs through both entry points, the bare AVP list reader and the per-type "
                 "readers, in a dev build (overflow checks, debug assertions) and a release build, under catch_unwind "
                 "with abort detection and a watchdog; distinct = distinct (operation, input, options) cases",
-        "assumptions": COMMON_ASSUMPTIONS + ["inputs up to 2 KiB except targeted cases", "per-case watchdog 20 s (quick) / 60 s (thorough)"],
+        "assumptions": COMMON_ASSUMPTIONS + ["random inputs up to ~2 KiB; targeted inputs up to 131 KiB (16-bit sums near 65 535 with the octets really present)", "per-case watchdog 20 s (quick) / 60 s (thorough)"],
     },
     "C02": {
         "mc": DEC_MODELS, "gen": ["decode_readers", "avps_readers", "payload_readers"], "readers": "all",
@@ -98,7 +98,7 @@ PROPS = {
         "assumptions": COMMON_ASSUMPTIONS,
     },
     "C05": {
-        "mc": DEC_MODELS + ["dec_flagsq"], "gen": ["decode", "avps", "payload", "flags", "ignored"],
+        "mc": DEC_MODELS + ["dec_flagsq"], "gen": ["decode", "avps", "payload", "flags", "ignored", "decode_big"],
         "rule": "every decode outcome (verdict, value field for field, per-record results) compared with the TLA+ "
                 "decoder's result for the same octets: TLC boundary grammars, flag words under all option sets, seeded "
                 "random / mutated / raw inputs, and pairs differing only in octets the specification ignores",
@@ -119,7 +119,7 @@ PROPS = {
     },
     "C08": {
         "mc": ["dec_framing", "dec_ctllen", "dec_data", "dec_loop3", "dec_loop4", "session_q", "session_t"],
-        "gen": ["decode_seq", "suffix", "concat", "decode"],
+        "gen": ["decode_seq", "suffix", "concat", "decode", "decode_big"],
         "rule": "remaining length after every accepted decode; 1..4 messages back to back in one reader; (b, b++suffix) "
                 "pairs; AVP record concatenations against the records alone; TLC: SuffixIndependent on every accepted run, "
                 "BackToBack / AtBoundary on the session machine",
